@@ -553,7 +553,7 @@ def run_search(ctx, case):
     if not math.isnan(t):
       sat &= pf[:, i] < t
   nviol = int(numpy.sum(~sat))
-  forced = n - nviol > dim
+  forced = n - nviol > dim and nviol > 0   # repaired rule (F13): the split is forced only when some observation violates
   if est is None or not forced:
     lo = numpy.asarray(est.lower_points, dtype=float) if est is not None else None
     gr = numpy.asarray(est.greater_points, dtype=float) if est is not None else None
